@@ -68,7 +68,8 @@ def cases(tier):
         p3 = [(i, j) for i in range(len(sh3)) for j in range(i, len(sh3))]
         for k in range(0, len(p3), B):
             out.append(('shapes3', 3, tuple(p3[k:k + B])))
-    for sc in ('quote', 'propagate', 'registry', 'objects', 'objects2', 'wiring', 'optional', 'distance', 'floats'):
+    for sc in ('quote', 'propagate', 'registry', 'objects', 'objects2', 'object-reuse', 'wiring', 'optional', 'distance',
+               'floats'):
         out.append((sc, 0, ()))
     return out
 
@@ -186,32 +187,29 @@ def two_chains(fs, spec, vals1, vals2, **kw):
     return c1, c2
 
 
-def run_case(case, tier):
+def pair_harness(a, b, pair):
+    def harness(ctx):
+        fs = keylib.fresh_fs()
+        ma, mb = Mk(ctx, 'a'), Mk(ctx, 'b')
+        va, vb = ma.build(a), mb.build(b)
+        c1, c2 = two_chains(fs, HOLD, {'v': va}, {'v': vb})
+        ne = z3.Not(py_eq(va, vb))
+        info = {'scenario': 'value', 'v1': describe(va), 'v2': describe(vb), 'pair': list(pair)}
+        k1, k2 = c1.tasks['holder'].name_for_persistence, c2.tasks['holder'].name_for_persistence
+        ctx.check(z3.Implies(ne, keys_differ(k1, k2)), 'distinct-values=>distinct-keys', info)
+    return harness
+
+
+def make_harness(case, tier):
     kind, depth, pairs = case
     keylib.setup(full=True, hash_mode='uf')
-    tmo = 30000 if tier == 'quick' else 90000
-    total = None
-
-    def merged(ctxs):
-        return driver.merge_results([driver.result_from_ctx(c) for c in ctxs])
-
     if kind in ('shapes', 'shapes3'):
         sh = shapes(2, 2) if kind == 'shapes' else shapes(3, 1)
-        ctxs = []
-        for (i, j) in pairs:
-            a, b = sh[i], sh[j]
 
-            def harness(ctx, a=a, b=b):
-                fs = keylib.fresh_fs()
-                ma, mb = Mk(ctx, 'a'), Mk(ctx, 'b')
-                va, vb = ma.build(a), mb.build(b)
-                c1, c2 = two_chains(fs, HOLD, {'v': va}, {'v': vb})
-                ne = z3.Not(py_eq(va, vb))
-                info = {'scenario': 'value', 'v1': describe(va), 'v2': describe(vb)}
-                k1, k2 = c1.tasks['holder'].name_for_persistence, c2.tasks['holder'].name_for_persistence
-                ctx.check(z3.Implies(ne, keys_differ(k1, k2)), 'distinct-values=>distinct-keys', info)
-            ctxs.append(explore.explore(harness, max_paths=400, decide_timeout_ms=tmo))
-        return merged(ctxs)
+        def replay_harness(ctx):
+            i, j = ctx.replay_info['pair']
+            return pair_harness(sh[i], sh[j], (i, j))(ctx)
+        return replay_harness
 
     def scenario(ctx):
         fs = keylib.fresh_fs()
@@ -275,6 +273,29 @@ def run_case(case, tier):
             d1, d2 = c1.tasks['use'].name_for_persistence, c2.tasks['use'].name_for_persistence
             ctx.check(z3.Implies(to_bool_term(k1 != k2), to_bool_term(d1 != d2)), 'upstream-change-propagates',
                       dict(desc, task='use'))
+        elif kind == 'object-reuse':
+            # a parameter object is used in one chain, then copied and changed, and used again
+            import copy
+            from ref import pobjects as PO
+            spec = [P('Obj', params=[par('o')]), P('Use', inputs=[inp('Obj')])]
+            s1, s2, r1 = I('s1'), I('s2'), I('r1')
+            how = ctx.choice('how', 3)
+            o1 = PO.Sized(s1, tags=[1, 2], rate=r1)
+            cl = family.make_pipeline(spec)
+            try:
+                c1 = keylib.chain(keylib.config(fs, cl.values(), {'o': o1}, name='one'))
+                k1 = c1.tasks['obj'].name_for_persistence
+                u1 = c1.tasks['use'].name_for_persistence
+                o2 = copy.deepcopy(o1) if how == 0 else (copy.copy(o1) if how == 1 else o1)
+                o2.size = s2
+                c2 = keylib.chain(keylib.config(fs, cl.values(), {'o': o2}, name='two'))
+            except AssertionError:
+                return
+            k2 = c2.tasks['obj'].name_for_persistence
+            desc = {'scenario': 'object-reuse', 'how': how, 'v1': [s1, r1], 'v2': [s2, r1]}
+            ctx.check(z3.Implies(z3.Not(py_eq(s1, s2)), keys_differ(k1, k2)), 'distinct-values=>distinct-keys', desc)
+            ctx.check(z3.Implies(z3.Not(py_eq(s1, s2)), keys_differ(u1, c2.tasks['use'].name_for_persistence)),
+                      'upstream-change-propagates', dict(desc, task='use'))
         elif kind == 'wiring':
             from taskchain import Config
             ds = [P('Dataset', params=[par('size')])]
@@ -328,16 +349,26 @@ def run_case(case, tier):
             k1, k2 = c1.tasks['holder'].name_for_persistence, c2.tasks['holder'].name_for_persistence
             ctx.check(z3.Implies(z3.BoolVal(va != vb), to_bool_term(k1 != k2)), 'distinct-values=>distinct-keys',
                       {'scenario': 'value', 'v1': va, 'v2': vb})
-    ctx = explore.explore(scenario, max_paths=2000, decide_timeout_ms=tmo)
+    return scenario
+
+
+def run_case(case, tier):
+    kind, depth, pairs = case
+    keylib.setup(full=True, hash_mode='uf')
+    tmo = 30000 if tier == 'quick' else 90000
+    if kind in ('shapes', 'shapes3'):
+        sh = shapes(2, 2) if kind == 'shapes' else shapes(3, 1)
+        ctxs = [explore.explore(pair_harness(sh[i], sh[j], (i, j)), max_paths=400, decide_timeout_ms=tmo)
+                for (i, j) in pairs]
+        return driver.merge_results([driver.result_from_ctx(c) for c in ctxs])
+    ctx = explore.explore(make_harness(case, tier), max_paths=2000, decide_timeout_ms=tmo)
     return driver.result_from_ctx(ctx)
-
-
-def replay_spec(v):
-    return v['info']
 
 
 def match_finding(spec, v, listed):
     """The quote finding: some string leaf or mapping key of the counterexample contains an apostrophe."""
+    info = spec.get('info') or {}
+
     def strings(x):
         if isinstance(x, str):
             yield x
@@ -348,17 +379,7 @@ def match_finding(spec, v, listed):
         elif isinstance(x, (list, tuple)):
             for y in x:
                 yield from strings(y)
-    if any(f['id'] == QUOTE for f in listed) and spec.get('scenario') in ('value', 'registry', 'distance') and any(
-            "'" in s for s in strings([spec.get('v1'), spec.get('v2')])):
+    if any(f['id'] == QUOTE for f in listed) and info.get('scenario') in ('value', 'registry', 'distance') and any(
+            "'" in s for s in strings([info.get('v1'), info.get('v2')])):
         return QUOTE
     return None
-
-
-def replay_script(spec):
-    return r'''
-import sys, json, warnings
-warnings.filterwarnings('ignore')
-spec = json.loads(sys.argv[1])
-from checks import c03_replay as R
-sys.exit(3 if R.main(spec) else 0)
-'''
